@@ -1,7 +1,7 @@
 (* Correspondence case and checker for C28 (partial): crash search. Every case is executed in a child
    process; "crashed" = the child died (panic escaping a goroutine, os.Exit, fatal signal). *)
 From Refinery Require Export Lib.Base Lib.Prim_cross Model.Panics.
-From Refinery Require Import Gen.GenC28.
+From Refinery Require Import Gen.GenC28 Model.PanicFacts.
 
 Inductive ckind :=
 (* a rules file whose sampler has this FieldList went through the real validator; then the real
